@@ -96,6 +96,8 @@ def fit_predict(p, data, xrep, yrep, qrep, vrep=None):
     kw = dict(rfm_params=xc.rfm_params(p['kernel'], diag=p['diag'], iters=p['iters']), max_leaf_size=p['max_leaf_size'],
               device='cpu', verbose=False, random_state=p['seed'], classification_mode=p['mode'],
               split_method=p['split_method'], n_trees=p.get('n_trees', 1))
+    if p.get('metric'):
+        kw['tuning_metric'] = p['metric']
     if p['tuning']:
         kw.update(use_temperature_tuning=True, temp_tuning_space=[0.0, 0.1, 0.5])
     else:
@@ -138,7 +140,15 @@ def execute(chunk):
             outs = 1 if data['y'].dim() == 1 else data['y'].shape[1]
             K = int(max(2, int(data['y'].max()) + 1)) if logical in ('binary', 'multi') else 0
             d, nq = p['d'], data['Xt'].shape[0]
-            ref = fit_predict(p, data, ('tensor', 'float32'), reference_y_rep(logical), ('tensor', 'float32'))
+            fc = bool(p.get('float_class'))
+            if fc:
+                # labels the caller has already encoded as floats: {0,1} (or {-1,+1}) for binary, one-hot rows for multiclass
+                import torch
+                enc = (lambda lab: torch.nn.functional.one_hot(lab, K).float()) if logical == 'multi' else \
+                      ((lambda lab: lab.float() * 2 - 1) if p.get('pm1') else (lambda lab: lab.float()))
+                data['y'], data['yv'] = enc(data['y']), enc(data['yv'])
+            ref_rep = ('tensor', 'float32', 'mat' if logical == 'multi' else 'col') if fc else reference_y_rep(logical)
+            ref = fit_predict(p, data, ('tensor', 'float32'), ref_rep, ('tensor', 'float32'))
             if ref['error']:
                 res['failures'].append({'signature': f'C20:raises:{ref["error"].split(":")[0]}',
                                         'detail': f'reference representation, {ref["stage"]}: {ref["error"]}'})
@@ -183,7 +193,7 @@ def execute(chunk):
                 outside = combo.get('outside', False)
                 # ---- model: what do the leaves receive? --------------------------------------------------------
                 mx = drv.ask({'op': 'coerce', 'role': 'X', 'container': xrep[0], 'dtype': xrep[1], 'shape': 'mat', **base})
-                my = drv.ask({'op': 'coerce', 'role': 'y', 'container': yrep[0], 'dtype': yrep[1], 'shape': yrep[2],
+                my = drv.ask({'op': 'coerce', 'role': 'yfc' if fc else 'y', 'container': yrep[0], 'dtype': yrep[1], 'shape': yrep[2],
                               'logical': logical, 'mode': p['mode'], **base})
                 if 'error' in mx or 'error' in my:
                     res['disagreements'].append({'detail': f'{tag}: model rejects the descriptor: {mx} {my}'})
@@ -277,6 +287,22 @@ def gen_cases(run):
                     tuning=(k % 3 == 0) or (task == 'reg1' and depth > 0), split_temperature=[None, 0.3][k % 2], n_trees=1 if k % 5 else 2,
                     seed=r.randint(0, 10 ** 6), dseed=r.randint(0, 10 ** 6))
         for part in core.chunks(combos, max(1, (len(combos) + 7) // 8)):
+            cases.append(dict(base, reps=part))
+    # labels already encoded by the caller as floats, given together with a classification metric
+    fc_plan = [('bin', 0, False), ('bin', 1, True), ('bin', 2, False), ('multi', 1, False)] if quick else \
+              [(t, dep, pm) for t in ('bin', 'bin', 'multi') for dep in (0, 1, 2, 3) for pm in (False, True)]
+    for k, (task, depth, pm1) in enumerate(fc_plan):
+        logical = logical_of(task)
+        shapes = ('mat',) if task == 'multi' else ('vec', 'col')
+        yreps = [(c, dt, sh) for c in ('tensor', 'ndarray') for dt in FLOAT_Y for sh in shapes]
+        r.shuffle(yreps)
+        combos = [{'x': list(X_REPS[i % 3]), 'y': list(yr), 'q': list(X_REPS[(i + 1) % 3])} for i, yr in enumerate(yreps)]
+        base = dict(family='pre-encoded-float-labels', task=task, logical=logical, mode='zero_one', n={0: 14, 1: 28, 2: 56, 3: 112}[depth],
+                    d=r.choice([3, 4]), max_leaf_size=16, kernel=kernels[k % len(kernels)], diag=False, iters=r.choice([0, 1]),
+                    split_method=r.choice(['top_vector_agop_on_subset', 'pca']), tuning=(k % 2 == 0), split_temperature=None,
+                    n_trees=1, seed=r.randint(0, 10 ** 6), dseed=r.randint(0, 10 ** 6), float_class=True,
+                    pm1=pm1 and task == 'bin', metric=['brier', 'accuracy', 'logloss'][k % 3])
+        for part in core.chunks(combos, 4):
             cases.append(dict(base, reps=part))
     # outside the documented interface: observations + model comparison only
     outside = [
